@@ -313,7 +313,7 @@ PROPS = {
     },
     "C19": {
         "level": "fault_enumeration", "eval_keys": ["batch_verifications"],
-        "rule": "one evaluation = one Verifier::verify call (batch sizes 0..16 quick / 0..64 thorough; one invalid item at every position x 11 kinds (message, key, z+1, R+G, exchanged, -z, -R, z=0, z=1, R=G, R=key); complementary pairs and triples; duplicates), each batch under 3 verifier random streams, compared with the conjunction of individual verdicts (library, independent verifier, Item::verify_single); distinct = (size, kind)",
+        "rule": "one evaluation = one Verifier::verify call (batch sizes 0..16, 31..33, 64 quick / 0..66, 127..129, 200 thorough; one invalid item at every position x 11 kinds (message, key, z+1, R+G, exchanged, -z, -R, z=0, z=1, R=G, R=key); complementary pairs and triples; duplicates), each batch under 3 verifier random streams, compared with the conjunction of individual verdicts (library, independent verifier, Item::verify_single); distinct = (size, kind)",
         "minimum": _all(_min_counts(batch_verifications=(15000, 200000), complementary_batches=(2000, 20000)), _c19_min),
         "assumptions": COMMON_ASSUME + ["the 2^-128 soundness bound itself is not measurable"],
     },
@@ -379,16 +379,16 @@ MANIFEST_TEXT = {
     "C12": {"technique": "runtime monitoring with differential oracle: re-encode equality on exhaustive single-bit/single-byte deviations; Python strict decoders supply adversarial encodings and judge a sample",
             "text": "Exploration: 24 wire types x 6 suites. Round trips (binary, JSON) on values from real runs; primitive decoders on every bit flip, every byte substitution, length variants, boundary integers, random strings, small/mixed-order and non-canonical points generated by the reference; containers on header sweeps, every truncation, embedded invalid primitives, cross-suite encodings.",
             "note": "Found and led to the repair of SEC1 tag 0x05 and the ignored Ed448 scalar byte (known_findings.json)."},
-    "C13": {"technique": "runtime monitoring over crash points: encode/drop/decode at every subset of round boundaries, byte-equality of all later outputs; cross-process save/resume with differing process histories",
+    "C13": {"technique": "runtime monitoring over crash points: encode/drop/decode (binary, JSON, custom serialization by components) at every subset of round boundaries, byte-equality of all later outputs; cross-process save/resume with differing process histories and build profiles",
             "text": "Fault enumeration over crash points: DKG, distributed refresh, dealer keygen, dealer refresh, repair, coordinator; every participant x every subset of boundaries in binary and in JSON plus random mixes.",
             "note": "Exhaustive boundary subsets are restarted in-process; one scenario per shard is resumed in a real second process."},
     "C14": {"technique": "sanitizer-style runtime monitoring: catch_unwind + panic hook + rustc overflow/debug assertions + subprocess isolation with write-ahead input record",
             "text": "Exploration: structure-aware mutation of every type's binary and JSON encodings, hostile wire-representable peer material for every protocol entry point (empty/oversized/duplicated/inconsistent/cross-group, commitment lengths wrapping u16), and mutate-decode-consume chains. A panic, abort or signal death is the refutation event.",
             "note": "A clean run is not a proof of panic-freedom; inputs the mutators never produce are not covered."},
-    "C15": {"technique": "runtime monitoring of the random source: recording RNG, byte-stream oracle H3(bytes||share), injectivity map; Python re-derivation of a sample",
+    "C15": {"technique": "runtime monitoring of the random source: recording RNG, byte-stream oracle H3(bytes||share), injectivity map; Python re-derivation of a sample; every shard in two build profiles (release with and without debug assertions)",
             "text": "Exploration over RNG histories: six share kinds x five sources x commit / preprocess(k) / direct constructors / interleaved signers; bytes consumed, derivation of hiding and binding nonce, commitments, uniqueness.",
             "note": ""},
-    "C16": {"technique": "runtime monitoring of the random source: reproducibility, cross-stream comparison, and a taint map obtained by perturbing one draw at a time",
+    "C16": {"technique": "runtime monitoring of the random source: reproducibility, cross-stream comparison, a taint map obtained by perturbing one draw at a time, bytes-drawn-per-coefficient law at large sizes; every shard in two build profiles",
             "text": "Exploration: ten RNG-taking entry points x shapes; same stream => identical bytes; other stream => every random-derived observable changes; observables pairwise distinct; no dead draw; independent observables each have a private draw; randomizer seed == drawn bytes; batch verification draws once per item.",
             "note": "Order-agnostic matching; three base streams before a dead/shared draw counts."},
     "C17": {"technique": "runtime monitoring: re-randomized sessions with independent verification under randomized and original key, binding sweeps, per-participant tampering",
@@ -401,6 +401,6 @@ MANIFEST_TEXT = {
             "text": "Exploration: 9 secret-bearing types x 6 suites x values from real runs x {slot, Box, Vec} x {dev, release, verif} builds. After drop neither the vacated storage nor any heap block the value owned may contain the memory image or canonical encoding of a secret scalar; after zeroize() getters, owned heap buffers and the inline image are clean; Debug output contains no encoding of a secret. Controls (mem::forget, Leaky, LeakyVec) must fire, ownership conservation must hold, else inconclusive.",
             "note": "Observes the value's own storage only; release build is what users ship."},
     "C19": {"technique": "runtime monitoring with fault injection: batches with invalid items at every position, cancelling pairs/triples, three verifier streams; constant-RNG control",
-            "text": "Fault enumeration: sizes 0..16/64, mixed FROST and single-signer items, seven invalid kinds at every position, complementary pairs and triples, duplicates; verdict must equal the conjunction of individual verdicts judged three ways.",
+            "text": "Fault enumeration: sizes 0..16 + 31..33 + 64 (quick) / 0..66 + 127..129 + 200 (thorough), mixed FROST and single-signer items, eleven invalid kinds at every position (relative alterations and the special values z=0, z=1, R=G, R=key), complementary pairs and triples, duplicates, runs of consecutive items under one key; verdict must equal the conjunction of individual verdicts judged three ways.",
             "note": "The probability bound is not measured."},
 }
